@@ -247,6 +247,28 @@ impl BigInt {
             digits,
         }
     }
+
+    /// The value as an `i64`, if it fits. Digits are little-endian, as on the wire;
+    /// high-order zero digits are ignored.
+    pub fn to_i64(&self) -> Option<i64> {
+        let significant = self
+            .digits
+            .iter()
+            .rposition(|&d| d != 0)
+            .map_or(0, |last| last + 1);
+        if significant > 8 {
+            return None;
+        }
+        let mut magnitude: u64 = 0;
+        for (i, &d) in self.digits[..significant].iter().enumerate() {
+            magnitude |= u64::from(d) << (8 * i);
+        }
+        if self.sign.is_negative() {
+            0i64.checked_sub_unsigned(magnitude)
+        } else {
+            i64::try_from(magnitude).ok()
+        }
+    }
 }
 
 /// Represents an Erlang PID originating from a remote node.
